@@ -22,6 +22,10 @@ type c06AliasCase struct {
 	Graph gdsl.Graph `json:"graph"`
 	Alias string     `json:"alias"`
 	Uses  string     `json:"uses"` // base module the importing package's own module reads ("" = none)
+	// the importing package's own binary: its type, and whether its bytes equal those of one of the imported binaries
+	OwnType    string `json:"own_type"`
+	OwnSameAs  int    `json:"own_same_as"` // index of the imported binary with the same bytes, -1 = different bytes
+	SkipSource bool   `json:"skip_source"` // read with SkipSourceCodeReader (own binary content left empty)
 }
 
 func genC06Alias(t *rapid.T) c06AliasCase {
@@ -36,6 +40,12 @@ func genC06Alias(t *rapid.T) c06AliasCase {
 	if len(maps) > 0 && rapid.Bool().Draw(t, "uses") {
 		c.Uses = rapid.SampledFrom(maps).Draw(t, "usesmap")
 	}
+	c.OwnType = rapid.SampledFrom([]string{"wasm/rust-v1", "wasm/rust-v1", "wasm/rust-v1+wasm-bindgen-shims", "wasip1/tinygo-v1"}).Draw(t, "owntype")
+	c.OwnSameAs = -1
+	if len(c.Graph.Bins) > 0 && rapid.Bool().Draw(t, "samebytes") {
+		c.OwnSameAs = rapid.IntRange(0, len(c.Graph.Bins)-1).Draw(t, "sameas")
+	}
+	c.SkipSource = rapid.IntRange(0, 3).Draw(t, "skipsource") == 0
 	return c
 }
 
@@ -62,9 +72,17 @@ func checkC06Alias(c c06AliasCase) *ev.Failure {
 		if err := os.WriteFile(filepath.Join(dir, "base.spkg"), raw, 0o644); err != nil {
 			return ev.Failf("harness", "%v", err)
 		}
-		os.WriteFile(filepath.Join(dir, "own.wasm"), []byte("own-code"), 0o644)
+		own := []byte("own-code")
+		if c.OwnSameAs >= 0 && c.OwnSameAs < len(pb.Binaries) {
+			own = pb.Binaries[c.OwnSameAs].Content
+		}
+		os.WriteFile(filepath.Join(dir, "own.wasm"), own, 0o644)
+		ownType := c.OwnType
+		if ownType == "" {
+			ownType = "wasm/rust-v1"
+		}
 		var y strings.Builder
-		fmt.Fprintf(&y, "specVersion: v0.1.0\npackage:\n  name: importer\n  version: v0.1.0\nimports:\n  %s: ./base.spkg\nbinaries:\n  default:\n    type: wasm/rust-v1\n    file: ./own.wasm\nmodules:\n  - name: own_map\n    kind: map\n    initialBlock: 0\n    inputs:\n      - source: %s\n", c.Alias, gdsl.BlockType)
+		fmt.Fprintf(&y, "specVersion: v0.1.0\npackage:\n  name: importer\n  version: v0.1.0\nimports:\n  %s: ./base.spkg\nbinaries:\n  default:\n    type: %s\n    file: ./own.wasm\nmodules:\n  - name: own_map\n    kind: map\n    initialBlock: 0\n    inputs:\n      - source: %s\n", c.Alias, ownType, gdsl.BlockType)
 		if c.Uses != "" {
 			fmt.Fprintf(&y, "      - map: %s:%s\n", c.Alias, c.Uses)
 		}
@@ -72,7 +90,11 @@ func checkC06Alias(c c06AliasCase) *ev.Failure {
 		if err := os.WriteFile(filepath.Join(dir, "substreams.yaml"), []byte(y.String()), 0o644); err != nil {
 			return ev.Failf("harness", "%v", err)
 		}
-		reader, err := manifest.NewReader(filepath.Join(dir, "substreams.yaml"), manifest.SkipSourceCodeReader())
+		var opts []manifest.Option
+		if c.SkipSource {
+			opts = append(opts, manifest.SkipSourceCodeReader())
+		}
+		reader, err := manifest.NewReader(filepath.Join(dir, "substreams.yaml"), opts...)
 		if err != nil {
 			return ev.Failf("reader/new-error", "%v", err)
 		}
@@ -119,9 +141,9 @@ func firstWords(s string) string {
 }
 
 func TestC06Alias(t *testing.T) {
-	ev.Get("C06", "AliasImport").Rule = "rapid: a generated valid graph is written as an .spkg and imported under an alias by a generated YAML manifest (whose own module may read one of the imported mappers), read with manifest.NewReader(...).Read() (prefixModules, reindexAndMergePackage); every imported module must keep the identifier it has in its own package; non-trivial = the importing module reads an imported mapper and the graph has >= 4 modules"
+	ev.Get("C06", "AliasImport").Rule = "rapid: a generated valid graph is written as an .spkg and imported under an alias by a generated YAML manifest (whose own module may read one of the imported mappers, and whose own binary has a generated type and bytes that may equal those of an imported binary; read with and without SkipSourceCodeReader), read with manifest.NewReader(...).Read() (prefixModules, reindexAndMergePackage); every imported module must keep the identifier it has in its own package; non-trivial = the importing module reads an imported mapper and the graph has >= 4 modules"
 	ev.Prop(t, "C06", "AliasImport", genC06Alias, checkC06Alias, func(c c06AliasCase) (bool, []string) {
-		return c.Uses != "" && len(c.Graph.Mods) >= 4, []string{"alias=" + c.Alias}
+		return c.Uses != "" && len(c.Graph.Mods) >= 4, []string{"alias=" + c.Alias, fmt.Sprintf("own-bytes-shared=%v", c.OwnSameAs >= 0), "own-type=" + c.OwnType, fmt.Sprintf("skip-source=%v", c.SkipSource)}
 	})
 }
 
